@@ -693,11 +693,10 @@ def _layer_reads(F, fn, depth=2, _seen=None):
     def scan_place(pl):
         tys = prov.place_types(body, pl)
         for i, pr in enumerate(pl["p"]):
-            if isinstance(pr, dict) and "f" in pr:
+            if isinstance(pr, dict) and pr.get("k") == "f":
                 t = tys[i]
-                if t["k"] == "adt" and t.get("d") in (OBJD, LAYER):
-                    a = F.adt(t["d"])
-                    out.add(a["variants"][0]["fields"][pr["f"]]["n"])
+                if t["k"] == "adt" and t.get("d") in (OBJ, LAYER):
+                    out.add(pr["n"])
     def scan_op(x):
         if isinstance(x, dict) and x.get("k") in ("move", "copy"):
             scan_place(x)
